@@ -18,20 +18,21 @@ PROPS = {
                    "sum_n reach(n), decrements the predecessor's pending count by the number of resolved nodes and enqueues it exactly "
                    "at zero; regret() combines them with the right strategies, signs and clamps. Accessors (negated utility, max of "
                    "regrets) are loop-free Kani proofs over all f64. Partial: see level_note.",
-        level_note="Assumes wf_game from from_root, idealised-real arithmetic, termination unproved. NOT proved: the first pass of "
-                   "optimal_deviations, the seeding of its queue, and the global order argument (step contract only); a bounded "
+        level_note="Assumes wf_game from from_root, idealised-real arithmetic, termination unproved. NOT proved: the seeding of "
+                   "optimal_deviations' resolution queue and the global order / work-list arguments (both passes are under per-step contracts only); a bounded "
                    "Kani harness on one concrete tree exists in the thorough tier only (tree walkers exhaust CBMC).",
         verus=[
             U("c01_expected", ["C01.V.expected.value"]),
             U("c01_next_infoset_search", ["C01.V.next_infoset_search.value", "C01.V.next_infoset_search.queue_empty"]),
             U("c01_optdev_resolve", ["C01.V.optimal_deviations.best_action_value", "C01.V.optimal_deviations.pending_count", "C01.V.optimal_deviations.nodes_consumed"]),
+            U("c01_optdev_collect", ["C01.V.optimal_deviations.collect_step"]),
             U("c01_regret_wrapper", ["C01.V.regret.utility", "C01.V.regret.player_one", "C01.V.regret.player_two"]),
             U("split_by", ["V.SplitsBy.next.partition"]),
         ],
         kani_functions=["src/lib.rs :: impl StrategiesInfo / fn player_utility, player_regret, regret", "src/lib.rs :: impl PlayerNum / fn ind, ind_mut"],
         trusted_base=[FLOAT_IDEAL, WF_GAME],
         not_decided=["global order argument of optimal_deviations (every infoset resolved after all later infosets of the same player): only the per-step contract is proved",
-                     "first pass of optimal_deviations (collection of reached nodes and pending counts) and the seeding of the resolution queue (iterator chains)",
+                     "the seeding of the resolution queue of optimal_deviations (an enumerate/filter/map/collect chain) and the work-list arguments that compose the per-step contracts of its two passes",
                      "Strategies::get_info composition of split_by with collect (read)"],
     ),
     "C02": dict(
